@@ -23,7 +23,7 @@ def read_files(ctx, rng, count, kinds=('default', 'zslice', 'general', 'b0is4', 
             n, bs, q = gen.geometry_3d(rng, klass='default' if rng.random() < .6 else None, max_voxels=max_voxels)
             if n[0] * n[1] < 4:
                 n = (max(n[0], 2), max(n[1], 3), n[2])
-            yield synth.make(p, n, bs, q, rng, irregular=True, n_arrays=int(rng.integers(2, 5)))
+            yield synth.make(p, n, bs, q, rng, irregular=True, n_arrays=int(rng.integers(2, 5)), il_dup=bool(rng.random() < .4))
         else:
             n, bs, q = gen.geometry_3d(rng, klass=kind, max_voxels=max_voxels)
             yield synth.make(p, n, bs, q, rng, version=ver, n_arrays=int(rng.integers(0, 5)), dups=bool(rng.random() < .3))
